@@ -229,6 +229,31 @@ impl<
         }
     }
 
+    /// Removes the entry of `key` if its TTL has run out, deciding and removing under one lock.
+    pub fn try_remove_expired(
+        &self,
+        key: &u64,
+        conflict: u64,
+    ) -> Result<Option<StoreItem<V>>, CacheError> {
+        let mut data = self.shards[(*key as usize) % NUM_OF_SHARDS].write();
+
+        match data.get(key) {
+            None => Ok(None),
+            Some(item) => {
+                if conflict != 0 && (conflict != item.conflict) {
+                    return Ok(None);
+                }
+
+                if item.expiration.is_zero() || !item.expiration.is_expired() {
+                    return Ok(None);
+                }
+
+                self.em.try_remove(key, item.expiration)?;
+                Ok(data.remove(key))
+            }
+        }
+    }
+
     /// Returns true if the slot of `key` is held by an entry with a different conflict hash.
     pub fn held_by_other(&self, key: &u64, conflict: u64) -> bool {
         self.shards[((*key) as usize) % NUM_OF_SHARDS]
@@ -237,6 +262,7 @@ impl<
             .map_or(false, |item| conflict != 0 && conflict != item.conflict)
     }
 
+    #[cfg(test)]
     pub fn expiration(&self, key: &u64) -> Option<Time> {
         self.shards[((*key) as usize) % NUM_OF_SHARDS]
             .read()
@@ -255,29 +281,21 @@ impl<
             .try_cleanup(now)?
             .map_or(Vec::with_capacity(0), |m| {
                 m.iter()
-                    // Sanity check. Verify that the store agrees that this key is expired.
+                    // Sanity check. Verify that the store agrees that this key is expired: the
+                    // check and the removal happen under one shard lock, a client may refresh
+                    // the entry at any moment.
                     .filter_map(|(k, v)| {
-                        self.expiration(k)
-                            .and_then(|t| {
-                                if t.is_expired() {
-                                    let cost = policy.cost(k);
-                                    policy.remove(k);
-                                    self.try_remove(k, *v)
-                                        .map(|maybe_sitem| {
-                                            maybe_sitem.map(|sitem| CrateItem {
-                                                val: Some(sitem.value.into_inner()),
-                                                index: sitem.key,
-                                                conflict: sitem.conflict,
-                                                cost,
-                                                exp: t,
-                                            })
-                                        })
-                                        .ok()
-                                } else {
-                                    None
-                                }
-                            })
-                            .flatten()
+                        self.try_remove_expired(k, *v).ok().flatten().map(|sitem| {
+                            let cost = policy.cost(k);
+                            policy.remove(k);
+                            CrateItem {
+                                index: sitem.key,
+                                conflict: sitem.conflict,
+                                cost,
+                                exp: sitem.expiration,
+                                val: Some(sitem.value.into_inner()),
+                            }
+                        })
                     })
                     .collect()
             }))
@@ -294,22 +312,18 @@ impl<
         let mut removed_items = Vec::new();
         if let Some(items) = items {
             for (k, v) in items.iter() {
-                let expiration = self.expiration(k);
-                if let Some(t) = expiration {
-                    if t.is_expired() {
-                        let cost = policy.cost(k);
-                        policy.remove(k);
-                        let removed_item = self.try_remove(k, *v)?;
-                        if let Some(sitem) = removed_item {
-                            removed_items.push(CrateItem {
-                                val: Some(sitem.value.into_inner()),
-                                index: sitem.key,
-                                conflict: sitem.conflict,
-                                cost,
-                                exp: t,
-                            })
-                        }
-                    }
+                // the expiry check and the removal happen under one shard lock: a client may
+                // refresh the entry at any moment
+                if let Some(sitem) = self.try_remove_expired(k, *v)? {
+                    let cost = policy.cost(k);
+                    policy.remove(k);
+                    removed_items.push(CrateItem {
+                        index: sitem.key,
+                        conflict: sitem.conflict,
+                        cost,
+                        exp: sitem.expiration,
+                        val: Some(sitem.value.into_inner()),
+                    })
                 }
             }
         }
